@@ -249,7 +249,8 @@ def atoms(vars_=("x", "y")):
         a, b = vars_[0], vars_[1]
         out += [("cmp", "==", ("attr", a, "a"), ("attr", b, "b")), ("cmp", "<", ("attr", a, "a"), ("attr", b, "a")),
                 ("contains", ("attr", b, "items"), ("attr", a, "a")), ("pred", ("attr", a, "a"), ("attr", b, "b")),
-                ("cmp", "!=", ("var", a), ("var", b))]
+                ("cmp", "!=", ("var", a), ("var", b)),
+                ("pred", ("attr", a, "a"), ("attr", a, "b")), ("cmp", "<", ("attr", b, "b"), ("attr", b, "a"))]
     return out
 
 
